@@ -112,7 +112,7 @@ pub fn execute(seed: u64, strategy: &str, body: Arc<dyn Fn() + Send + Sync>) -> 
 /// rank — the hypothesis of `Rx.LockOrder.ranked_no_deadlock`.  The certificate (that rank + the event list) is
 /// re-checked by the verified checker `Rx.LockOrder.checkTrace` (`rxmodel lockrank`).
 /// A condvar wait releases the mutex it was given and re-acquires it when woken.
-pub fn lock_order(events: &[facade::Event]) -> (String, String) {
+pub fn lock_order(events: &[facade::Event], want_cert: bool) -> (String, String) {
   use std::collections::{BTreeMap, BTreeSet};
   let mut held: BTreeMap<usize, Vec<(usize, bool)>> = BTreeMap::new(); // tid -> [(lock, is_mutex)]
   let mut parked: BTreeMap<usize, usize> = BTreeMap::new();
@@ -131,11 +131,13 @@ pub fn lock_order(events: &[facade::Event]) -> (String, String) {
         edges.insert((x.0, obj));
       }
       h.push((obj, is_mutex));
-      trace.push(format!("{} A {}", e.tid, obj));
+      if want_cert {
+        trace.push(format!("{} A {}", e.tid, obj));
+      }
     };
     match e.kind {
       "acq_r" | "acq_w" | "lock" => {
-        sites.insert(e.obj, e.site.clone());
+        sites.entry(e.obj).or_insert_with(|| e.site.clone());
         nodes.insert(e.obj);
         acquire(e.obj, e.kind == "lock", &mut held, &mut edges, &mut trace, &mut verdict);
       }
@@ -143,7 +145,9 @@ pub fn lock_order(events: &[facade::Event]) -> (String, String) {
         let h = held.entry(e.tid).or_default();
         if let Some(i) = h.iter().rposition(|x| x.0 == e.obj) {
           h.remove(i);
-          trace.push(format!("{} R {}", e.tid, e.obj));
+          if want_cert {
+            trace.push(format!("{} R {}", e.tid, e.obj));
+          }
         }
       }
       "wait" => {
@@ -151,7 +155,9 @@ pub fn lock_order(events: &[facade::Event]) -> (String, String) {
         if let Some(i) = h.iter().rposition(|x| x.1) {
           let m = h.remove(i).0;
           parked.insert(e.tid, m);
-          trace.push(format!("{} R {}", e.tid, m));
+          if want_cert {
+            trace.push(format!("{} R {}", e.tid, m));
+          }
         }
       }
       "woken" => {
@@ -164,8 +170,10 @@ pub fn lock_order(events: &[facade::Event]) -> (String, String) {
   }
   // Kahn's algorithm: rank = position in a topological order of the edge relation
   let mut indeg: BTreeMap<usize, usize> = nodes.iter().map(|n| (*n, 0)).collect();
-  for (_, b) in edges.iter() {
+  let mut succ: BTreeMap<usize, Vec<usize>> = BTreeMap::new();
+  for (a, b) in edges.iter() {
     *indeg.entry(*b).or_default() += 1;
+    succ.entry(*a).or_default().push(*b);
   }
   let mut ready: Vec<usize> = indeg.iter().filter(|(_, d)| **d == 0).map(|(n, _)| *n).collect();
   let mut rank: BTreeMap<usize, usize> = BTreeMap::new();
@@ -173,8 +181,8 @@ pub fn lock_order(events: &[facade::Event]) -> (String, String) {
   while let Some(n) = ready.pop() {
     rank.insert(n, next);
     next += 1;
-    for (a, b) in edges.iter() {
-      if *a == n {
+    if let Some(bs) = succ.get(&n) {
+      for b in bs.iter() {
         let d = indeg.get_mut(b).unwrap();
         *d -= 1;
         if *d == 0 {
@@ -187,11 +195,11 @@ pub fn lock_order(events: &[facade::Event]) -> (String, String) {
     let cyc: Vec<String> = nodes.iter().filter(|n| !rank.contains_key(n)).map(|n| sites.get(n).cloned().unwrap_or_default()).collect();
     verdict = format!("cycle:{}", cyc.join(">"));
   }
-  let cert = format!(
-    "{} | {}",
-    rank.iter().map(|(n, r)| format!("{}:{}", n, r)).collect::<Vec<_>>().join(","),
-    trace.join(";")
-  );
+  let cert = if want_cert {
+    format!("{} | {}", rank.iter().map(|(n, r)| format!("{}:{}", n, r)).collect::<Vec<_>>().join(","), trace.join(";"))
+  } else {
+    String::new()
+  };
   (verdict, cert)
 }
 
@@ -282,7 +290,7 @@ fn main() {
         strategy.as_str()
       };
       let o = execute(s, strat, sc.body());
-      let (lo, cert) = lock_order(&o.events);
+      let (lo, cert) = lock_order(&o.events, seen.len() < lockcert);
       let payload = format!("out={} lo={} {} | {}", o.status, lo, o.detail, sc.render(&o));
       match seen.get_mut(&payload) {
         Some(v) => v.1 += 1,
